@@ -1070,7 +1070,10 @@ class CallMixin(object):
         if isinstance(recv, Const) and isinstance(recv.v, (dict, list)):
             cont = recv.v
             if name in MAP_MUTATORS + LIST_MUTATORS and not (isinstance(cont, dict) and name == "pop" and False):
-                self.event("global_write", node, module, st, what="%s() on a constant table" % name)
+                kw_ = {}
+                if name == "setdefault" and args and isinstance(node, ast.Call) and isinstance(node.func, ast.Attribute):
+                    kw_ = dict(key=args[0], value=args[1] if len(args) > 1 else Const(None), table=short(node.func.value))
+                self.event("global_write", node, module, st, what="%s() on a constant table" % name, **kw_)
                 return Opaque("mutated-table")
             if isinstance(cont, dict):
                 if name == "get":
@@ -1689,7 +1692,7 @@ class StmtMixin(object):
                     return
                 raise AnalysisError("E5.assign", "store with symbolic key %r" % (idx,), node, module)
             if isinstance(base, Const) and isinstance(base.v, (dict, list)):
-                self.event("global_write", target, module, st, what="store into a constant table")
+                self.event("global_write", target, module, st, what="store into a constant table", key=idx, value=value, table=short(target.value))
                 return
             if isinstance(base, Ref) and st.heap[base.id].kind == "list" and isinstance(idx, Const) and isinstance(idx.v, int):
                 o = st.heap[base.id]
